@@ -16,6 +16,10 @@ CLAIMED = {
          "DESIGN.md C09", "CBMC's (float)/(_Float16) casts as round-to-nearest-even oracle; signalling-NaN payloads excluded; argument-list syntax, padding and integer range checks not yet covered"),
  "C13": ("EQU/SET rules through the real EnterIntSymbolWithFlags/SymbolAdder/LookupSymbol: a constant never changes silently, SET may, double definition and EQU/SET mixing are errors",
          "DESIGN.md C13", "same cuts as C01; section resolution order, PUBLIC/GLOBAL/FORWARD, local handles, PUSHV/POPV, case folding and temporary symbols are not yet covered"),
+ "C17": ("report-option non-interference at the emission step (2-safety by self-composition): the real WriteCode + BookKeeping run twice from the same arbitrary state under two arbitrary settings of -u/-g/-C/list mode/list mask and must hand the same records, counters and errors to the code-file writer",
+         "DESIGN.md C17", "one step only; code-file writer and debug/use lists are call recorders; whole-run determinism, option placement and locale are outside"),
+ "C18": ("reset completeness of ~40 per-file/per-pass core variables: arbitrary pre-state (what a predecessor file could leave), then the real AsmDefInit/AsmIFInit/AssembleFile_InitPass/AsmSubPassInit; every listed variable must hold its start value",
+         "DESIGN.md C18", "callees building strings/symbols/CPU state are 'return nondet' under a frame assumption; InitPass callbacks of the code generators and heap table contents are outside"),
  "C12": ("asmif.c complete: every sequence of K statements (17 kinds, arbitrary 64-bit conditions/selectors, 0..3 arguments) vs a reference interpreter written from the manual",
          "DESIGN.md C12", "expression evaluator and symbol/macro/file look-ups replaced by stubs returning arbitrary values; listing decoration stubbed; integer selectors; K=4 quick / K=6 thorough"),
 }
